@@ -1,4 +1,5 @@
 import JjModel.Lemmas.MergeMapping
+import JjModel.Lemmas.MergeFlatten
 /-!
   C01 — Conflict simplification and flattening preserve meaning.
 
@@ -64,6 +65,31 @@ theorem simplify_idem (vs : List α) (h : vs.length % 2 = 1) :
   unfold simplify
   rw [simplifiedMapping_of_sep w hsep, applyMapping_range]
 
+/-! ### flatten -/
+
+/-- **Flattening preserves meaning**: the signed count of the flattened merge is the alternating
+sum `Σᵢ (−1)ⁱ · count mm[i] v` (`altSum mm 1 v`) of the signed counts of the terms —
+a side of a base term counts as a base, a base of a base term as a side. -/
+theorem flatten_count (mm : List (List α)) (h : mm.length % 2 = 1)
+    (hall : ∀ t ∈ mm, t.length % 2 = 1) (v : α) :
+    count (flatten mm) v = altSum mm 1 v := by
+  cases mm with
+  | nil => simp at h
+  | cons first rest =>
+    have := (flattenFrom_spec first rest v (hall first (by simp)) (by simp at h; omega)
+      (fun t ht => hall t (by simp [ht]))).1
+    simp only [flatten, altSum, this]; omega
+
+/-- flattening a well-formed nested merge gives odd arity -/
+theorem flatten_odd (mm : List (List α)) (h : mm.length % 2 = 1)
+    (hall : ∀ t ∈ mm, t.length % 2 = 1) : (flatten mm).length % 2 = 1 := by
+  cases mm with
+  | nil => simp at h
+  | cons first rest =>
+    obtain ⟨d⟩ := default_of_odd first (hall first (by simp))
+    exact (flattenFrom_spec first rest d (hall first (by simp)) (by simp at h; omega)
+      (fun t ht => hall t (by simp [ht]))).2
+
 /-! ### non-vacuity -/
 
 example : simplify [0, 1, 2, 0, 3] = [3, 1, 2] := by decide
@@ -71,5 +97,8 @@ example : simplifiedMapping [0, 1, 2, 0, 3] = [4, 1, 2] := by decide
 example : count [0, 1, 2, 0, 3] 0 = 0 ∧ count (simplify [0, 1, 2, 0, 3]) 0 = 0 := by decide
 example : simplify [1, 1, 2, 2, 3, 3, 1, 2, 3] = [1, 2, 3] := by decide
 example : 0 ∈ adds [0, 1, 2, 0, 3] ∧ 0 ∈ removes [0, 1, 2, 0, 3] := by decide
+example : flatten [[4, 3, 5], [2, 1, 0], [7, 6, 8]] = [4, 3, 5, 0, 1, 2, 7, 6, 8] := by decide
+example : altSum [[0, 1, 2], [0, 3, 1], [1]] 1 1 = -1 ∧
+    count (flatten [[0, 1, 2], [0, 3, 1], [1]]) 1 = -1 := by decide
 
 end JjModel.C01
